@@ -186,10 +186,11 @@ func c15Run(op string, k int, short, silent bool, in []byte) (res string, after 
 			return "ok", nil, true, fr.n
 		case "reader/Sign":
 			before := p.VerifState()
+			sigs0, _ := p.Signatures()
 			_, err := p.Sign(key, cert)
 			if err != nil {
 				sigs, _ := p.Signatures()
-				same = before == p.VerifState() && len(sigs) == 0
+				same = before == p.VerifState() && len(sigs) == len(sigs0)
 			}
 			return errRes(err), nil, same, fr.n
 		default:
@@ -249,7 +250,7 @@ func runC15(c *Ctx) {
 		{"sign/PECOFFBinary.Sign", images, false}, {"sign/WriteSignedUpdate", dbs, false},
 		{"fs/WriteVar", dbs, true}, {"fs/WriteEfivars-legacy", dbs, true}, {"fs/WriteSignedUpdate", dbs, true},
 		{"fs/GetVarWithAttributes", dbs, false}, {"fs/GetVar", dbs, false}, {"fs/ReadEfivars-legacy", dbs, false}, {"fs/Getdb", dbs, false},
-		{"reader/Parse", images, false}, {"reader/Hash", images, false}, {"reader/Sign", images, false}, {"reader/Verify", signed, false},
+		{"reader/Parse", append(append([][]byte{}, images...), signed...), false}, {"reader/Hash", append(append([][]byte{}, images...), signed...), false}, {"reader/Sign", append(append([][]byte{}, images...), signed...), false}, {"reader/Verify", signed, false},
 	}
 	for _, f := range fams {
 		for _, in := range f.inputs {
